@@ -67,6 +67,9 @@ func checkC20(c *Ctx) {
 	c.Rule("C20-R12", "the surplus is distributed in proportion to the fill factors: what is stored into a cell's pad is computed from that cell's fill factor (or is zero, or one leftover cell more), unless stored under a test that fill factors are equal")
 	c.Expect("C20-R12", 3)
 	checkPadDerivesFromFill(c, p, "C20-R12")
+	c.Rule("C20-R13", "re-doing the layout after a child changes: BoxLayout.HandleEvent marks the layout changed for every content event, decided by the event's type alone (a test of the sender against the children drops the events of widgets that are boxes or texts by embedding)")
+	c.Expect("C20-R13", 1)
+	checkContentEventAlwaysRelayouts(c, p, "C20-R13")
 	bl := methods(blOwner)
 	if len(vp) < 15 || len(bl) < 10 {
 		c.Undecided("C20-R1", "methods", "-", fmt.Sprintf("found %d ViewPort and %d BoxLayout methods", len(vp), len(bl)))
